@@ -250,7 +250,7 @@ theorem fillHly_spec (r : Rule) (p : Inst) (n : Nat) (hr : WfRule r) (hp : WfIns
         | false => exact hnil
         | true =>
           simp only []
-          have hts := timesMS_sorted (mkSubCtx r p k).e (makeEnum_M r p hr hp) (makeEnum_S r p hr hp)
+          have hts := timesMS_sorted (mkSubCtx r p k).e (subEnum_M r p hr hp) (subEnum_S r p hr hp)
           obtain ⟨acc', cnt', b, he, hacc⟩ := hlyLoop_spec (mkSubCtx r p k) (mkSubCtx r p k).e.timesMS hts hi.1 hi.2
             hp.ms (hlyFuel p.y) p.y p.m p.d H0 (ymdGetWday p.y p.m p.d) (ymdGetYd p.y p.m p.d) (maxyOf p.y) 0 []
             hy1 hm1 hm2 hd1 hd2 hH (AccOk.nil _ _ _ _) (by unfold hlyFuel; omega)
